@@ -10,6 +10,10 @@ import vp
 from vp import ToolError, log
 
 
+class RecorderAborted(Exception):
+    """raised after the abort has been registered as a mismatch: the pipeline stops and concludes"""
+
+
 class Check:
     def __init__(self, pid, tier):
         self.pid = pid
@@ -54,13 +58,85 @@ class Check:
         """Replay spec-generated vectors into the real code.  `aspects`: prefixes of
         the mismatch aspects that belong to this property (e.g. 'C01.')."""
         out = os.path.join(self.workdir(), f'{label}.mismatches.ndjson')
-        s = vp.jsv(['replay'] + list(files) + ['--out', out] + list(extra_args))
+        try:
+            s = vp.jsv(['replay'] + list(files) + ['--out', out] + list(extra_args))
+        except vp.HarnessCrash as e:
+            log(f'[replay] harness process died, isolating the vector(s) that bring it down: {str(e)[:200]}')
+            s = self._isolated_replay(files, out, extra_args)
         s['label'] = label
         self.replays.append(s)
         self._collect(out, aspects)
         for smp in s.get('samples', [])[:3]:
             self.samples.append(smp)
         return s
+
+    ABORT_ASPECT = {'obj': 'C06.abort', 'parse': 'C03.abort', 'parse_bytes': 'C03.abort', 'nest': 'C03.abort', 'print': 'C13.abort',
+                    'wide': 'C13.abort', 'canon': 'C09.abort', 'uneq': 'C15.abort', 'ser': 'C16.abort', 'de': 'C16.abort', 'sj': 'C18.abort',
+                    'conv': 'C11.abort', 'kind_set': 'C20.abort', 'kind_ops': 'C20.abort', 'kind_iter': 'C20.abort', 'macro': 'C19.abort'}
+
+    def _isolated_replay(self, files, out, extra_args, chunk=20000):
+        """The harness died (a panic inside a destructor aborts the process and cannot be caught).  Replay the
+        vectors in child processes, bisecting every chunk that dies down to the single vector responsible:
+        an abort of the code under test is data (a mismatch `<Cxx>.abort` carrying that vector)."""
+        d = self.workdir('isolate')
+        merged = {'counters': {}, 'mismatch_counts': {}, 'mismatches_total': 0, 'distinct': 0, 'samples': [], 'wall_s': 0.0}
+        mm = open(out, 'w')
+        budget = [400]          # at most this many child runs
+        found = [0]
+
+        def run(lines, depth=0):
+            if not lines:
+                return
+            budget[0] -= 1
+            if budget[0] < 0:
+                raise ToolError('isolating a crashing vector needs too many runs')
+            p = os.path.join(d, f'chunk_{depth}_{budget[0]}.ndjson')
+            open(p, 'w').write('\n'.join(lines) + '\n')
+            o = p + '.out'
+            try:
+                s = vp.jsv(['replay', p, '--out', o, '--threads', 2] + list(extra_args))
+            except vp.HarnessCrash:
+                if found[0] >= 3 and len(lines) > 1:
+                    # enough culprits isolated: do not bisect further chunks, just count them
+                    rec = vp.unquote_tlc(lines[0]) if lines[0].startswith('"') else json.loads(lines[0])
+                    a = self.ABORT_ASPECT.get(rec.get('k'), 'C00.abort')
+                    merged['mismatch_counts'][a] = merged['mismatch_counts'].get(a, 0) + 1
+                    merged['counters']['chunks_aborted_not_bisected'] = merged['counters'].get('chunks_aborted_not_bisected', 0) + 1
+                    return
+                if len(lines) == 1:
+                    found[0] += 1
+                    rec = vp.unquote_tlc(lines[0]) if lines[0].startswith('"') else json.loads(lines[0])
+                    a = self.ABORT_ASPECT.get(rec.get('k'), 'C00.abort')
+                    mm.write(json.dumps({'aspect': a, 'detail': {'what': 'the process aborted while replaying this vector (a panic that cannot unwind, e.g. inside a destructor)', 'vector': rec}}) + '\n')
+                    merged['mismatch_counts'][a] = merged['mismatch_counts'].get(a, 0) + 1
+                    return
+                h = len(lines) // 2
+                run(lines[:h], depth + 1)
+                run(lines[h:], depth + 1)
+                return
+            for k, v in s.get('counters', {}).items():
+                merged['counters'][k] = merged['counters'].get(k, 0) + v
+            for k, v in s.get('mismatch_counts', {}).items():
+                merged['mismatch_counts'][k] = merged['mismatch_counts'].get(k, 0) + v
+            merged['distinct'] += s.get('distinct', 0)
+            merged['samples'] = (merged['samples'] + s.get('samples', []))[:6]
+            merged['wall_s'] += s.get('wall_s', 0)
+            if os.path.exists(o):
+                mm.write(open(o).read())
+
+        buf = []
+        for f in files:
+            with open(f, errors='replace') as fh:
+                for line in fh:
+                    if line.startswith('"{') or line.startswith('{'):
+                        buf.append(line.rstrip('\n'))
+                        if len(buf) >= chunk:
+                            run(buf)
+                            buf = []
+        run(buf)
+        mm.close()
+        merged['mismatches_total'] = sum(merged['mismatch_counts'].values())
+        return merged
 
     def _collect(self, path, aspects):
         if not os.path.exists(path):
@@ -74,7 +150,13 @@ class Check:
     def record(self, sub, out_name, args=(), seed_offset=0):
         """Run a harness recorder (impl -> spec direction); returns (trace path, summary)."""
         path = os.path.join(self.workdir(), out_name)
-        s = vp.jsv([sub, '--out', path] + [str(a) for a in args], seed_offset=seed_offset)
+        try:
+            s = vp.jsv([sub, '--out', path] + [str(a) for a in args], seed_offset=seed_offset)
+        except vp.HarnessCrash as e:
+            # the code under test aborted the process while being driven by the recorder: that is data
+            self.mismatches.append((self.pid + '.abort', {'what': 'the process aborted (panic that cannot unwind / stack overflow) while the recorder drove the real code',
+                                                         'recorder': sub, 'args': [str(a) for a in args], 'seed': vp.seed() + seed_offset, 'stderr': str(e)[-300:]}))
+            raise RecorderAborted()
         return path, s
 
     def validate(self, label, module, trace, aspect, what, invariants=('Result',), spec='TrSpec', timeout=1800,
